@@ -51,6 +51,9 @@ from radical.pilot                 import messages  as rpm         # noqa: E402
 from radical.pilot.utils.component import AgentComponent, ClientComponent  # noqa: E402
 
 from radical.pilot.pilot_manager import PilotManager               # noqa: E402
+from radical.pilot                 import pilot     as rp_pilot    # noqa: E402
+from radical.pilot                 import proxy     as rp_proxy    # noqa: E402
+from radical.pilot.utils           import component as rp_comp     # noqa: E402
 
 Session = rp_session.Session
 
@@ -62,6 +65,10 @@ MAXHOPS = 2
 
 class RigError(Exception):
     '''the rig itself is used wrongly (machinery)'''
+
+
+class NoResult(Exception):
+    '''a blocking rpc call: everything is delivered, the result event is not set'''
 
 
 def pilot_id(i):
@@ -99,6 +106,7 @@ class Bridge(object):
         self.addr_pub = 'fab://%s/%s/pub' % (side, channel)
         self.addr_sub = 'fab://%s/%s/sub' % (side, channel)
         self.pubs, self.subs = [], []
+        self.down = False                 # the hosting worker was told to terminate
 
 
 class Fabric(object):
@@ -112,6 +120,7 @@ class Fabric(object):
         self.outs   = None
         self.ngid   = 0
         self.sync   = None                          # rig: real code publishes on its own
+        self.rig    = None
 
     def add_bridge(self, b):
         self.by_pub[b.addr_pub] = b
@@ -149,11 +158,16 @@ class FakePublisher(object):
             # real code (Session.close, PilotManager.close) publishes by itself:
             # one Publish step, then everything in flight is delivered
             return fab.sync.free_publish(self, topic, msg)
+        if self.role == 'app' and isinstance(fab.ctx, Envelope):
+            # an ordinary component publishes from inside its subscriber callback
+            # (an RPC result): that is a message of its own, not a forwarded copy
+            return fab.rig.nested_publish(self, topic, msg)
         data = ru.as_bytes(topic.replace(' ', '_')) + b' ' + to_msgpack(msg)
         env  = (fab.ctx.gid, fab.ctx.hops + 1)
         fan  = 0
         for sub in self.bridge.subs:
-            if sub.stopped:
+            if sub.stopped or self.bridge.down:
+                # a dead endpoint: the publisher does not notice, nobody gets it
                 continue
             if not any(data.startswith(ru.as_bytes(t)) for t in sub.topics):
                 continue
@@ -219,8 +233,13 @@ def agent_cfg(pid, pmgr='pmgr.0000'):
 
 class FwdRig(object):
 
-    def __init__(self, npilots, bound=None):
+    def __init__(self, npilots, bound=None, tag='0', with_rpc=False):
+        '''tag: names the worker hosting the proxy pubsubs (their addresses);
+           with_rpc: the ordinary control subscriber of every side also runs the real
+           BaseComponent._control_cb (RPC handling) of that side's component'''
         global FABRIC
+        self.tag, self.with_rpc = tag, with_rpc
+        self.handles = {}                                # pilot id -> real Pilot (client side)
         self.sides  = [CLIENT] + [pilot_id(i) for i in range(npilots)]
         self.kinds  = list(KINDS)
         self.fab    = Fabric()
@@ -234,11 +253,12 @@ class FwdRig(object):
         self._wiring = None
 
         fab = self.fab
+        fab.rig = self
         self.local = {}
         self.proxy = {}
         for k in self.kinds:
             loc, prx = KINDS[k]
-            self.proxy[k] = fab.add_bridge(Bridge(prx, k, 'proxy', 'proxy'))
+            self.proxy[k] = fab.add_bridge(Bridge(prx, k, 'proxy', 'proxy.%s' % tag))
             for s in self.sides:
                 self.local[s, k] = fab.add_bridge(Bridge(loc, k, 'local', s))
 
@@ -309,6 +329,13 @@ class FwdRig(object):
         comp._log, comp._prof = rpshim.NullLog(), rpshim.NullLog()
         comp._outputs    = {}
         comp._publishers = {}
+        comp._uid          = 'verif.%s' % side
+        comp._rpc_handlers = {}
+        comp._rpc_reqs     = {}
+        comp._cancel_lock  = mt.Lock()
+        comp._cancel_list  = []
+        # as agent_0 does for its pilot: handlers are addressed by the side
+        comp.register_rpc_handler('verif_echo', lambda *a, **k: [side] + list(a), rpc_addr=side)
         for k in self.kinds:
             b = self.local[side, k]
             comp._publishers[b.channel] = FakePublisher(b.channel, url=b.addr_pub)
@@ -351,7 +378,7 @@ class FwdRig(object):
            pilots are connected.  What the closing code publishes is delivered
            at once (to rest) before close() goes on - a subscriber stopped by
            then gets nothing'''
-        self._sync_rng = rng
+        self._sync_rng, self._sync_via = rng, 'close'
         self.fab.sync  = self
         try:
             self.sessions[CLIENT].close(terminate=True)
@@ -367,15 +394,102 @@ class FwdRig(object):
             pub.put(topic, msg)
         finally:
             outs, fab.ctx, fab.outs = fab.outs, None, None
-        self._log_publish(pub.side, pub.bridge.kind, gid, outs, 'close')
+        self._log_publish(pub.side, pub.bridge.kind, gid, outs, self._sync_via)
         if not self.drain(self._sync_rng):
-            raise RigError('messages circulate while the session closes')
+            raise RigError('messages circulate')
 
     def _app_cb(self, side, kind):
         def cb(topic, msg):
             gid = self.fab.ctx.gid
             self.got[side][gid] = self.got[side].get(gid, 0) + 1
+            if self.with_rpc and kind == 'control':
+                # the component of this side: REAL _control_cb -> _handle_rpc_msg
+                self.comps[side]._control_cb(topic, msg)
+                if side == CLIENT:
+                    for h in self.handles.values():
+                        h._control_cb(topic, msg)         # REAL Pilot._control_cb
         return cb
+
+    # ----------------------------------------------------------------------
+    def nested_publish(self, pub, topic, msg):
+        '''a component publishes from inside its control callback: a new message
+           (RPC result); `re` links it to the request being delivered'''
+        fab = self.fab
+        parent, pouts = fab.ctx, fab.outs
+        fab.ngid += 1
+        gid  = fab.ngid
+        wire = ru.as_string(from_msgpack(to_msgpack(msg)))
+        is_res = isinstance(wire, dict) and wire.get('_msg_type') == rpm.RPCResultMessage._msg_type
+        fab.ctx, fab.outs = _Root(gid), []
+        try:
+            pub.put(topic, msg)
+        finally:
+            outs, fab.ctx, fab.outs = fab.outs, parent, pouts
+        self._log_publish(pub.side, pub.bridge.kind, gid, outs, 'reply',
+                          re=parent.gid if is_res else 0)
+
+    def publish_req(self, a, b):
+        '''side a sends an RPC request addressed to side b (what BaseComponent.rpc /
+           Pilot.rpc put on the wire, without waiting for the result)'''
+        fab = self.fab
+        fab.ngid += 1
+        gid = fab.ngid
+        req = rpm.RPCRequestMessage(uid='rpc.%s.%04d' % (self.tag, gid), cmd='verif_echo',
+                                    addr=b, args=[gid], kwargs={})
+        self.comps[a]._rpc_reqs[req.uid] = {'req': req, 'res': None, 'evt': mt.Event(), 'time': 0}
+        fab.ctx, fab.outs = _Root(gid), []
+        try:
+            self.comps[a].publish(rpc.CONTROL_PUBSUB, req)
+        finally:
+            outs, fab.ctx, fab.outs = fab.outs, None, None
+        return self._log_publish(a, 'control', gid, outs, 'rpc_req')
+
+    def add_pilot_handle(self, pid):
+        '''a real Pilot object of the client application (waiting for states mocked)'''
+        global FABRIC
+        h = rp_pilot.Pilot.__new__(rp_pilot.Pilot)
+        h._uid, h._log, h._rpc_reqs = pid, rpshim.NullLog(), {}
+        h.wait = mock.MagicMock()
+        b = self.local[CLIENT, 'control']
+        FABRIC, self.fab.owner = self.fab, ('app', CLIENT)
+        try:
+            h._ctrl_pub = FakePublisher(b.channel, url=b.addr_pub)
+        finally:
+            FABRIC, self.fab.owner = None, None
+        self.handles[pid] = h
+        return h
+
+    def rpc_call(self, a, b, rng=None):
+        '''the REAL blocking call: Pilot.rpc (client -> pilot) or BaseComponent.rpc
+           (any other pair).  Waiting on the result event delivers everything in
+           flight; no result at rest ends the call (the real code would wait on)'''
+        rig = self
+
+        class DrainEvent(object):
+            def __init__(self): self._f = False
+            def set(self): self._f = True
+            def is_set(self): return self._f
+            def wait(self, timeout=None):
+                rig.drain(rng)
+                if not self._f:
+                    raise NoResult()
+                return True
+
+        class MT(object):
+            Event = DrainEvent
+            def __getattr__(self, k): return getattr(mt, k)
+
+        self._sync_rng, self._sync_via = rng, 'rpc_call'
+        self.fab.sync = self
+        try:
+            with mock.patch.object(rp_comp, 'mt', MT()), mock.patch.object(rp_pilot, 'mt', MT()):
+                if a == CLIENT and b in self.handles:
+                    return self.handles[b].rpc('verif_echo', 7)
+                return self.comps[a].rpc('verif_echo', 7, rpc_addr=b)
+        except NoResult:
+            return None
+        finally:
+            self.fab.sync = None
 
     # ----------------------------------------------------------------------
     def _payload(self, gid, origin, fwd, via):
@@ -435,12 +549,13 @@ class FwdRig(object):
             outs, fab.ctx, fab.outs = fab.outs, None, None
         return self._log_publish(side, 'state', gid, outs, 'advance')
 
-    def _log_publish(self, side, kind, gid, outs, via):
+    def _log_publish(self, side, kind, gid, outs, via, re=0):
         if len(outs) != 1:
             raise RigError('ordinary publish made %d puts' % len(outs))
         o  = outs[0]
         ev = {'ev': 'Publish', 'side': side, 'ident': self.ident[side], 'kind': o['kind'],
-              'id': gid, 'via': via, 'origin': o['origin'], 'fwd': o['fwd'], 'fan': o['fan']}
+              'id': gid, 'via': via, 'origin': o['origin'], 'fwd': o['fwd'], 'fan': o['fan'],
+              're': re}
         if o['kind'] != kind or o['scope'] != 'local':
             raise RigError('ordinary publish went to %s/%s' % (o['scope'], o['kind']))
         self.pubrec[gid] = ev
@@ -469,8 +584,8 @@ class FwdRig(object):
         env = fab.queues[link].popleft()
         topic, msg = env.decode()
         wire_o, wire_f = origin_class(msg), fwd_class(msg)
-        if sub.stopped:
-            # the subscriber was stopped with this message still on its way
+        if sub.stopped or sub.bridge.down:
+            # the subscriber was stopped / the bridge shut down with this message on its way
             ev = {'ev': 'Lost', 'sub': sub.role, 'side': sub.side, 'kind': sub.bridge.kind,
                   'id': env.gid, 'hops': env.hops}
             self.events.append(ev)
@@ -521,6 +636,191 @@ class FwdRig(object):
     def trace(self):
         return {'sides': list(self.sides), 'idents': [self.ident[s] for s in self.sides],
                 'nmsgs': self.fab.ngid, 'events': self.events}
+
+
+# ------------------------------------------------------------------------------
+# the proxy service (proxy.py) hosting the proxy pubsubs of several sessions
+#
+class _Term(object):
+    '''mp.Event handed to a worker: set = shut the session's proxy pubsubs down'''
+    def __init__(self): self._f, self.on_set = False, None
+    def is_set(self): return self._f
+    def wait(self, timeout=None): return self._f
+    def set(self):
+        self._f = True
+        if self.on_set:
+            self.on_set()
+
+
+class _Queue(object):
+    def __init__(self): self.items = []
+    def put(self, x): self.items.append(x)
+    def get(self, timeout=None):
+        if not self.items:
+            import queue
+            raise queue.Empty()
+        return self.items.pop(0)
+
+
+class ProxyRig(object):
+    '''REAL Proxy._register / _lookup / _unregister / _heartbeat / _monitor on a
+       Proxy.__new__ object.  `mp` of the proxy module is replaced by fakes: the
+       "worker process" of a session is a FwdRig (client + pilots of that
+       session, wired by the real code) whose proxy pubsubs go down when the
+       worker's termination event is set.  `time` of the proxy module is a
+       virtual clock in ticks of _TIMEOUT / timeout_ticks seconds.'''
+
+    T0 = 1000000
+
+    def __init__(self, sessions, npilots=1, timeout_ticks=2, with_rpc=False):
+        self.sessions = list(sessions)
+        self.npilots  = npilots if isinstance(npilots, dict) else {s: npilots for s in sessions}
+        self.timeout  = timeout_ticks
+        self.tick     = rp_proxy._TIMEOUT / float(timeout_ticks)
+        self.now      = 0
+        self.events   = []
+        self.workers  = {}      # sid -> current worker record
+        self.rigs     = []      # every FwdRig ever hosted (sid, incarnation, rig)
+        self.cfgs     = {}      # sid -> cfg the worker announced
+        self.with_rpc = with_rpc
+        self._pass    = 0
+
+        px = rp_proxy.Proxy.__new__(rp_proxy.Proxy)
+        px._lock, px._term, px._clients = mt.Lock(), mt.Event(), {}
+        px._log, px._path, px._uid = rpshim.NullLog(), '/tmp', 'radical.pilot.proxy'
+        self.proxy = px
+        rig = self
+
+        class Process(object):
+            def __init__(self, target=None, args=()):
+                self.sid, self.q, self.term = args[0], args[1], args[2]
+                self.joined, self.rig = False, None
+            def start(self):
+                # Proxy._worker: start the session's proxy pubsubs, announce their addresses
+                n = len([1 for r in rig.rigs if r[0] == self.sid])
+                self.rig = FwdRig(rig.npilots[self.sid], tag='%s.%d' % (self.sid, n),
+                                  with_rpc=rig.with_rpc)
+                self.term.on_set = self.shutdown
+                cfg = {b.channel: {'addr_pub': b.addr_pub, 'addr_sub': b.addr_sub}
+                       for b in self.rig.proxy.values()}
+                rig.rigs.append((self.sid, n, self.rig))
+                rig.workers[self.sid] = self
+                rig.cfgs[self.sid]    = cfg
+                self.q.put(cfg)
+            def shutdown(self):
+                for b in self.rig.proxy.values():
+                    b.down = True
+            def join(self, timeout=None): self.joined = True
+            def terminate(self): self.term.set()
+
+        class MP(object):
+            Queue, Event = _Queue, _Term
+        MP.Process = Process
+
+        class Time(object):
+            @staticmethod
+            def time(): return rig.T0 + rig.now * rig.tick
+            @staticmethod
+            def sleep(x): pass
+
+        self._mp, self._time = MP, Time
+
+    # ----------------------------------------------------------------------
+    def _patched(self):
+        import contextlib
+        st = contextlib.ExitStack()
+        st.enter_context(mock.patch.object(rp_proxy, 'mp', self._mp))
+        st.enter_context(mock.patch.object(rp_proxy, 'time', self._time))
+        return st
+
+    def state(self):
+        out = []
+        for sid in self.sessions:
+            c = self.proxy._clients.get(sid)
+            w = self.workers.get(sid)
+            hb = int(round((c['hb'] - self.T0) / self.tick)) if c else 0
+            out.append({'reg': bool(c), 'up': bool(w and not w.term.is_set()), 'hb': max(hb, 0)})
+        return out
+
+    def _log(self, op, sid, ok=True, cfgok=True):
+        ev = {'op': op, 'sid': sid, 'now': self.now, 'ok': bool(ok), 'cfgok': bool(cfgok),
+              'st': self.state()}
+        self.events.append(ev)
+        return ev
+
+    def _request(self, op, method, sid):
+        res, ok = None, True
+        with self._patched():
+            try:
+                res = method({'sid': sid})
+            except RigError:
+                raise
+            except Exception:
+                ok = False
+        return res, ok
+
+    def register(self, sid):
+        res, ok = self._request('Register', self.proxy._register, sid)
+        ev = self._log('Register', sid, ok, (not ok) or res == self.cfgs.get(sid))
+        if ok:
+            # the pilots of the session find its proxy pubsubs through lookup
+            for _ in range(self.npilots[sid]):
+                self.lookup(sid)
+        return ev
+
+    def unregister(self, sid):
+        _, ok = self._request('Unregister', self.proxy._unregister, sid)
+        return self._log('Unregister', sid, ok)
+
+    def heartbeat(self, sid):
+        _, ok = self._request('Heartbeat', self.proxy._heartbeat, sid)
+        return self._log('Heartbeat', sid, ok)
+
+    def lookup(self, sid):
+        res, ok = self._request('Lookup', self.proxy._lookup, sid)
+        return self._log('Lookup', sid, ok, ok and res == self.cfgs.get(sid))
+
+    def tick_(self):
+        self.now += 1
+        return self._log('Tick', 'none')
+
+    def monitor(self):
+        '''one pass of the loop of the REAL Proxy._monitor'''
+        rig = self
+        class Once(object):
+            n = 0
+            def is_set(self):
+                Once.n += 1
+                return Once.n > 1
+            def set(self): Once.n = 2
+        self.proxy._term = Once()
+        with self._patched():
+            self.proxy._monitor()
+        self.proxy._term = mt.Event()
+        return self._log('Monitor', 'none')
+
+    def send(self, sid, rng=None):
+        '''the client and one pilot of the session each publish a message with the
+           forward flag; an RPC round trip if the session has RPC components'''
+        w = self.workers.get(sid)
+        if not w:
+            return
+        r = w.rig
+        r.publish(CLIENT, 'control', origin='absent', fwd='true')
+        r.publish(r.sides[-1], 'state', origin='absent', fwd='true')
+        if self.with_rpc:
+            r.publish_req(r.sides[-1], CLIENT)
+        r.drain(rng)
+
+    def traces(self):
+        '''(proxy service trace, [(sid, incarnation, forwarding trace)])'''
+        fts = []
+        for sid, n, r in self.rigs:
+            if r.fab.ngid:
+                r.quiet(r.drain())
+                fts.append((sid, n, r.trace()))
+        return ({'sessions': list(self.sessions), 'timeout': self.timeout, 'events': self.events},
+                fts)
 
 
 # ------------------------------------------------------------------------------
